@@ -5,7 +5,7 @@ import os
 
 ROOT = os.path.dirname(os.path.dirname(os.path.abspath(__file__)))
 
-HOOK_COMMITS = ["4b32732", "5fd760e", "49e9f71"]  # hook commits in /repo (build tag verif)
+HOOK_COMMITS = ["4b32732", "5fd760e", "49e9f71", "0e5bb3d"]  # hook commits in /repo (build tag verif)
 
 CLAIMED = {
     "C06": dict(
